@@ -156,16 +156,24 @@ Definition is_list_hdr (id : N) : bool := lookup_list hdr_table id.
 Definition deleted_by (e h : hdr) : bool :=
   if negb (hdr_id e =? hdr_OTHER) then hdr_id h =? hdr_id e else ci_eqb (h_name h) (h_name e).
 
-(* first loop: sequential deletions *)
-Fixpoint update_delete (fresh : list hdr) (cur : list hdr) : list hdr :=
+(* the skipEntry lambda of HttpHeader::update (repaired code, /repo 5d5369d): a fresh entry is neither used to delete
+   nor added when skipUpdateHeader(id), or the registered-header table marks its id hop-by-hop, or the fresh
+   message's own Connection field(s) (fresh->getList(CONNECTION)) nominate its name (strListIsMember, caseless).
+   needUpdate() below still uses skipUpdateHeader only. *)
+Definition skip_entry (fresh : list hdr) (e : hdr) : bool :=
+  skip_update_header (hdr_id e) || is_hopbyhop (hdr_id e) || is_member (conn_value fresh) (h_name e).
+
+(* first loop: sequential deletions (sk = the skipEntry predicate, fixed for the whole fresh message) *)
+Fixpoint update_delete_sk (sk : hdr -> bool) (fresh : list hdr) (cur : list hdr) : list hdr :=
   match fresh with
   | [] => cur
   | e :: r =>
-      if skip_update_header (hdr_id e) then update_delete r cur
-      else update_delete r (filter (fun h => negb (deleted_by e h)) cur)
+      if sk e then update_delete_sk sk r cur
+      else update_delete_sk sk r (filter (fun h => negb (deleted_by e h)) cur)
   end.
+Definition update_delete (fresh : list hdr) (cur : list hdr) : list hdr := update_delete_sk (skip_entry fresh) fresh cur.
 (* second loop: addEntry(e->clone()) for every non-skipped fresh entry, in order *)
-Definition update_added (fresh : list hdr) : list hdr := filter (fun e => negb (skip_update_header (hdr_id e))) fresh.
+Definition update_added (fresh : list hdr) : list hdr := filter (fun e => negb (skip_entry fresh e)) fresh.
 (* HttpHeader::update followed by compact() *)
 Definition hdr_update (old fresh : list hdr) : list hdr := update_delete fresh old ++ update_added fresh.
 
